@@ -23,6 +23,10 @@ pub enum Fault {
     /// parent side: open of /dev/null fails (nth)
     OpenNull(u8, i32),
     Fork(i32),
+    /// the nth fcntl(F_DUPFD_CLOEXEC) spawn makes fails - the call that lifts an internal descriptor out of 0..=2
+    /// when the caller has closed some of its own standard descriptors (whichever process makes it: where it is
+    /// made is found in the parent's call log afterwards)
+    Fcntl(u8, i32),
     /// parent side: the read on the sync pipe is interrupted n times first
     ReadEintr(u8),
     /// (not generated: read(2) on a pipe has no plausible error besides EINTR; with a forced EIO the
@@ -360,6 +364,9 @@ fn run_case(c: &SpawnCase, root: &std::path::Path, rep: &mut CaseReport) -> Resu
             expect_err = Some(("fork".into(), Some(e)));
             parent_fault = true;
         }
+        Fault::Fcntl(k, e) => {
+            rules.push(force(sc::nr::FCNTL, Some(k as usize), e, 1));
+        }
         Fault::ReadEintr(n) => {
             rules.push(Rule { nr: Some(sc::nr::READ), nth: None, action: Action::ForceRet(sc::verif::neg_errno(libc::EINTR)), times: n as usize });
         }
@@ -457,6 +464,12 @@ fn run_case(c: &SpawnCase, root: &std::path::Path, rep: &mut CaseReport) -> Resu
     let spawn_log = sc::verif::log_end();
     sc::verif::clear_plan();
     let any_closed = c.closed.iter().any(|&b| b);
+    // the lifting fcntl that was made to fail, if the caller's process made it: spawn must report it (nothing forked yet)
+    if let Fault::Fcntl(_, e) = c.fault {
+        if unsafe { libc::getpid() } == parent_pid && spawn_log.iter().any(|call| call.nr == sc::nr::FCNTL && call.ret as isize == -(e as isize)) {
+            expect_err = Some(("fcntl".into(), Some(e)));
+        }
+    }
     if unsafe { libc::getpid() } != parent_pid {
         // we are a child that spawn() returned into: tell the parent and vanish
         unsafe {
@@ -784,6 +797,7 @@ fn run_case(c: &SpawnCase, root: &std::path::Path, rep: &mut CaseReport) -> Resu
             "pipe2" => "fail-pipe2",
             "open /dev/null" => "fail-open-null",
             "fork" => "fail-fork",
+            "fcntl" => "fail-fcntl-lifting-a-descriptor-above-stdio",
             "dup2" => "fail-child-dup2",
             "chdir" => "fail-child-chdir",
             "setuid" => "fail-child-setuid",
@@ -835,6 +849,7 @@ fn fault_strategy() -> impl Strategy<Value = Fault> {
         2 => (0u8..4, errno_strategy(&[libc::EMFILE, libc::ENFILE, libc::ENOMEM])).prop_map(|(k, e)| Fault::Pipe2(k, e)),
         1 => (0u8..3, errno_strategy(&[libc::EMFILE, libc::ENFILE, libc::ENOMEM, libc::EACCES])).prop_map(|(k, e)| Fault::OpenNull(k, e)),
         2 => errno_strategy(&[libc::EAGAIN, libc::ENOMEM]).prop_map(Fault::Fork),
+        2 => (0u8..4, errno_strategy(&[libc::EMFILE, libc::EINVAL])).prop_map(|(k, e)| Fault::Fcntl(k, e)),
         1 => (1u8..4).prop_map(Fault::ReadEintr),
         // (EBUSY is the one errno dup2 is documented to retry on: a single injected EBUSY is absorbed, not reported)
         2 => (0u8..3, errno_strategy(&[libc::EMFILE, libc::EINTR, libc::EBADF])).prop_map(|(k, e)| Fault::Dup(k, if e == libc::EBUSY { libc::EIO } else { e })),
@@ -862,7 +877,18 @@ pub fn case_strategy() -> impl Strategy<Value = SpawnCase> {
     )
         .prop_map(|(prog, args, env, cwd, pgroup, ids, stdio, closures, exit_code, fault, (closed, wait_mode))| {
             // the closed-descriptor knob is combined only with fault-free runs of the helper
-            let closed = if fault == Fault::None && prog == 0 { closed } else { [false; 3] };
+            // (and with the failing lift of a descriptor, which only happens then: there at least one is closed)
+            let closed = match fault {
+                Fault::None if prog == 0 => closed,
+                Fault::Fcntl(..) if prog == 0 => {
+                    if closed.iter().any(|&b| b) {
+                        closed
+                    } else {
+                        [exit_code & 1 == 0, exit_code & 2 != 0 || exit_code & 1 != 0, exit_code & 4 != 0]
+                    }
+                }
+                _ => [false; 3],
+            };
             SpawnCase { prog, args, env, cwd, pgroup, ids, stdio, closures, exit_code, fault, closed, wait_mode, keep_stdin: exit_code % 2 == 0, feed: vec![], shared_raw: exit_code % 3 == 0 }
         })
         .prop_flat_map(|c| (Just(c), prop_oneof![2 => Just(vec![]), 3 => prop::collection::vec(0u8..5, 1..6)]))
